@@ -290,10 +290,11 @@ def prep (r0 : Cells) : Cells × Option Str :=
   (plainSaveto r, get r0 "parameters")
 
 /-- guards on the raw row (outside the fragment) -/
-def rowGuards (r0 r : Cells) : Except Fail Unit := do
-  guard (keysNodupB r0) (.unsup "duplicate column")
-  guard (!has r "control::tag") (.unsup "control::tag")
-  guard (!(has r "guidance_hint" || hasPrefix r "guidance_hint::")) (.unsup "guidance_hint")
+def rowGuards (r0 r : Cells) : Except Fail Unit :=
+  if !(keysNodupB r0 && keysNodupB r) then .error (.unsup "duplicate column")
+  else if has r "control::tag" then .error (.unsup "control::tag")
+  else if has r "guidance_hint" || hasPrefix r "guidance_hint::" then .error (.unsup "guidance_hint")
+  else .ok ()
 
 def parseRaw (raw : Str) : Except Fail Dict :=
   if !isAscii raw then .error (.unsup "non-ASCII parameters")
